@@ -554,7 +554,7 @@ func RunC04(tier string, seed int64) int {
 		"a Cancel/Stop that lands after verification leaves a fully verified block confirmed; only the all-three-conditions implication is enforced for those cases"}
 	cases := c04Cases(tier, seed)
 	obs := &c04obs{}
-	common.ParallelFor(len(cases), runtime.NumCPU(), func(i int) { deliverBlock(ctx, run, obs, seed, cases[i]) })
+	common.QuietFirst(len(cases), 150, runtime.NumCPU(), func(i int) { deliverBlock(ctx, run, obs, seed, cases[i]) })
 	ne2e := 70
 	if tier == "thorough" {
 		ne2e = 2100
